@@ -107,7 +107,7 @@ func runCheck(id string, def checkDef, tier, replayKey string) (code int) {
 		r.Fail("undecided", "pathsim.budget", f, "", "the path exploration of "+f+" exceeded its work budget: the rules that depend on it are undecided (a recursion or loop nest much larger than anything on the reference tree)")
 	}
 	if os.Getenv("VERIF_STEPS") != "" {
-		fmt.Fprintf(os.Stderr, "pathsim: largest simulator entered %d blocks\n", stepsHigh)
+		fmt.Fprintf(os.Stderr, "pathsim: largest simulator entered %d blocks, all together %d\n", stepsHigh, stepsTotal)
 	}
 	return r.Finish()
 }
